@@ -20,10 +20,11 @@ import (
 )
 
 // The driver. nrun's one-Explore-per-plan structure starts fresh worker
-// processes per scenario, which is too heavy for thousands of one-execution
-// scenarios, so phase 1 (k=0 over the configuration table) uses a pool of
-// persistent worker subprocesses speaking explore's line protocol, and phase 2
-// (k=1 on representative configurations) uses explore.Explore directly.
+// processes per scenario (about 50 ms of CPU each, against 6 ms for one
+// execution), which is too heavy for thousands of one-execution scenarios. So
+// one pool of persistent worker subprocesses speaking explore's line protocol
+// serves all phases: phase 1 sweeps the table in the default order (k=0),
+// phases 2 and 3 call explore.Explore with Run = pool.run (k=1 / k=2).
 
 func workerCmd() *exec.Cmd {
 	cmd := exec.Command(os.Args[0], "-test.run", "^TestC40$", "-test.timeout", "0")
@@ -248,7 +249,7 @@ func TestC40(t *testing.T) {
 		return
 	}
 	r := ev.New("C40", "model_checking")
-	r.Rule("engine N, configurations enumerated: every (log shape: start 0 or 2 after DeleteRecords, 4 records with timestamps 10,20,20,30, open transaction from start+2 or none, per-record or single-batch layout) × (isolation level) × (consumer mode: ConsumePartitions, ConsumePartitions+ConsumeResetOffset, ConsumeTopics+ConsumeStartOffset, group with ConsumeStartOffset / ConsumeResetOffset and 0 or 1 prior commit with/without epoch) × (Offset value: At(x) x∈[start-2,start+6] with Relative(r) r∈[-3,3], AtStart().Relative(0..6), AtEnd().Relative(0..-6), each with and without WithEpoch(0), AfterMilli(5..35), AtCommitted) run once in the default event order on the real client and kfake; k=1: every single deviation (frame reordering across connections, timer tick before a pending frame) of the default order on representative configurations; distinct = (configuration class, observed first offset relative to the log start, unblock steps) pairs")
+	r.Rule("engine N, configurations enumerated: every (log shape: start 0 or 2 after DeleteRecords, 4 records with timestamps 10,20,20,30, open transaction from start+2 or none, per-record or single-batch layout) × (isolation level) × (consumer mode: ConsumePartitions, ConsumePartitions+ConsumeResetOffset, ConsumeTopics+ConsumeStartOffset, group with ConsumeStartOffset / ConsumeResetOffset and 0 or 1 prior commit with/without epoch) × (Offset value: At(x) x∈[start-2,start+6] with Relative(r) r∈[-3,3], AtStart().Relative(0..6), AtEnd().Relative(0..-6), each with and without WithEpoch(0), AfterMilli(5..35), AtCommitted) run once in the default event order on the real client and kfake; deviations (frame delivered out of arrival order across connections, timer tick before a pending frame): every single deviation of the default order on 36 representative configurations (quick) or on every configuration (thorough), every pair of deviations on the representatives (thorough); distinct = (configuration class, observed first offset relative to the log start, unblock steps) pairs")
 	r.Assume("kfake is the broker (its ListOffsets/Fetch/OffsetForLeaderEpoch/DeleteRecords/transaction handling is part of the tree under test)",
 		"synctests build of xsync; virtual time",
 		"offset resolution in a fault-free environment finishes within 10 virtual seconds once frames flow freely (liveness bound of the oracle)",
@@ -284,7 +285,11 @@ func TestC40(t *testing.T) {
 	outcomes := map[string]map[string]int{} // mode -> outcome -> count
 	lenient := map[string]int{}
 	var samples []any
+	var repMu sync.Mutex
+	perKey := map[string]int{}
 	report := func(scen string, job explore.Job, res explore.Result) {
+		repMu.Lock()
+		defer repMu.Unlock()
 		r.Evals(1)
 		r.Traces(1)
 		r.States(int64(len(res.Points)) + 1)
@@ -303,8 +308,9 @@ func TestC40(t *testing.T) {
 					cls += "/onebatch"
 				}
 			}
-			if nviol < 50 {
-				r.Violation("C40:"+cls+":"+v.Key, fmt.Sprintf("scenario %s, deviations %v: %s", scen, job.Kinds, v.What),
+			key := "C40:" + cls + ":" + v.Key
+			if perKey[key]++; perKey[key] <= 8 { // a few artefacts per class; every one is counted below
+				r.Violation(key, fmt.Sprintf("scenario %s, deviations %v: %s", scen, job.Kinds, v.What),
 					map[string]any{"check": "C40", "scenario": scen, "prefix": job.Prefix, "labels": job.Labels, "violation": v})
 			}
 			nviol++
@@ -404,9 +410,62 @@ func TestC40(t *testing.T) {
 		r.NotExhaustive(fmt.Sprintf("phase 2: k=%d completed on %d of %d representative configurations", k, completed, len(reps)))
 	}
 	fmt.Printf("  phase 2 (k=%d): %d of %d representative configurations completed, %d executions in %.1fs\n", k, completed, len(reps), p2execs, time.Since(p2start).Seconds())
+	// ---- phase 3 (thorough): k=1 on EVERY configuration, configurations in parallel
+	if ev.Thorough() {
+		p3start := time.Now()
+		var mu sync.Mutex
+		next, p3done, p3cut, p3div := 0, 0, 0, int64(0)
+		var p3execs int64
+		var wg sync.WaitGroup
+		for w := 0; w < ev.Workers(); w++ {
+			wg.Add(1)
+			go func() {
+				defer wg.Done()
+				for {
+					mu.Lock()
+					if next >= len(sel) || time.Now().After(begin.Add(total)) {
+						mu.Unlock()
+						return
+					}
+					n := sel[next]
+					next++
+					mu.Unlock()
+					name := fmt.Sprintf("cfg-%d", n)
+					c := allCfgs[n]
+					st := explore.Explore(explore.Config{
+						Scenario: name, Budget: 1, Workers: 1, Deadline: begin.Add(total), Run: pl.run,
+						OnResult: func(job explore.Job, res explore.Result) {
+							report(name, job, res)
+							r.Distinct("k1|" + c.class() + "|" + res.Obs)
+						},
+					})
+					mu.Lock()
+					p3execs += st.Execs
+					p3div += st.Diverged
+					if st.Cut {
+						p3cut++
+					} else {
+						p3done++
+					}
+					mu.Unlock()
+				}
+			}()
+		}
+		wg.Wait()
+		fmt.Printf("  phase 3 (k=1, all configurations): %d of %d completed, %d executions, %d diverged in %.1fs\n", p3done, len(sel), p3execs, p3div, time.Since(p3start).Seconds())
+		if p3done < len(sel) {
+			r.NotExhaustive(fmt.Sprintf("phase 3: k=1 completed on %d of %d configurations (time)", p3done, len(sel)))
+		}
+		if p3div > 0 {
+			r.NotExhaustive(fmt.Sprintf("phase 3: %d replayed prefixes diverged", p3div))
+		}
+		r.Set("phase3_k1_all", map[string]any{"configurations_completed": p3done, "configurations": len(sel), "executions": p3execs, "diverged": p3div, "cut_by_time": p3cut})
+	}
 	r.Set("phase2_k", k)
 	r.Set("phase2", p2)
 	r.Set("phase2_completed", completed)
+	r.Set("violations_per_class", perKey)
+	r.Set("violations_observed", nviol)
 	r.Set("bound_completed", map[string]any{"k0_configurations": done, fmt.Sprintf("k%d_representatives", k): completed})
 	pl.close()
 	os.Exit(r.Write())
